@@ -380,7 +380,9 @@ func (p *Plugin) send(root *insaneJSON.Root) (int, error) {
 		if ts == "" {
 			ts = fmt.Sprintf(`%d`, time.Now().UnixNano())
 		} else if !p.isUnixNanoFormat(ts) {
-			return 0, errUnixNanoFormat
+			// loki can't take this event, but the rest of the batch still has to be sent
+			p.logger.Error("event is skipped", zap.Error(errUnixNanoFormat), zap.String("timestamp", ts))
+			continue
 		}
 
 		logNode := msg.Dig(p.config.MessageField)
